@@ -106,6 +106,11 @@ func (g *jgen) ty(depth int) reflect.Type {
 	case r < 15:
 		return reflect.ArrayOf([]int{0, 1, 2, 3}[h.Intn(4)], g.ty(depth+1))
 	case r < 17:
+		if h.Intn(3) == 0 { // the map types with hand-specialised encoders and decoders (sorted and unsorted branches)
+			g.feat("specialmap")
+			return []reflect.Type{reflect.TypeOf(map[string]any(nil)), reflect.TypeOf(map[string]json.RawMessage(nil)),
+				reflect.TypeOf(map[string]string(nil)), reflect.TypeOf(map[string][]string(nil)), reflect.TypeOf(map[string]bool(nil))}[h.Intn(5)]
+		}
 		var k reflect.Type
 		switch h.Intn(8) {
 		case 0:
